@@ -140,7 +140,13 @@ def gen_program(rnd, n, features=None, origin=None, short_reach=6):
                 s.update(mn="FCC", op='"%s"' % txt, kind="fcc")
             else:
                 s.update(mn="RMB", op=str(rnd.choice([1, 2, 3, 10, rnd.randrange(1, 300)])), kind="rmb")
-    prog = {"origin": origin, "stmts": stmts, "equs": [], "name": None, "end": None}
+    # statements that share an address: labelled zero-size directives, and optionally a label on the ORG line
+    if "samelabel" in F or features is None:
+        for z in range(rnd.choice([0, 0, 1, 2])):
+            pos = rnd.randrange(0, len(stmts) + 1)
+            stmts.insert(pos, {"label": "ZS%d" % z, "mn": "SETDP", "op": "0", "kind": "zero", "refs": [], "abs": False, "comment": ""})
+    prog = {"origin": origin, "stmts": stmts, "equs": [], "name": None, "end": None,
+            "org_label": "ORGL" if (origin is not None and rnd.random() < 0.25 and features is None) else ""}
     for c in equs:
         v = rnd.choice([rnd.randrange(0, 256), rnd.randrange(1, 16)])
         prog["equs"].append({"label": c, "mn": "EQU", "op": rnd.choice(["$%02X", "%d"]) % v, "kind": "equ", "refs": [], "abs": False,
@@ -176,7 +182,7 @@ def render(prog, ws=" ", rename=None, mncase=str.upper, comments=None, suffix=No
     if prog.get("name"):
         emit("", "NAM", prog["name"])
     if org is not None:
-        emit("", "ORG", "$%04X" % org)
+        emit(rename(prog.get("org_label") or "") if prog.get("org_label") else "", "ORG", "$%04X" % org)
     for e in prog["equs"]:
         if e["pos"] == "top":
             emit(rename(e["label"]), "EQU", e["op"])
